@@ -14,10 +14,11 @@ package main
 //
 // All three do their work on the index directory by running
 // `zoekt-merge-index merge|explode ...`. The harness puts a stand-in with that
-// name first in PATH (a small sh script): it announces "S <pid> <args>" on a
-// FIFO, waits for the harness' verdict on a FIFO of its own, then - like the
-// real command - deletes its input shards and (merge) writes a compound shard,
-// announces "F <pid>", waits for the acknowledgement and exits. Between S and F
+// name first in PATH (a small sh script): it announces "S <slot> <args>" on a
+// FIFO and waits for the harness' verdict on a FIFO of its own; when the
+// harness lets it go on, the command's work - delete the input shards, (merge)
+// leave a compound shard - is done to the index directory, the stand-in
+// announces "F <slot>", waits for the acknowledgement and exits. Between S and F
 // the command is a critical section of a global operation and is entered in the
 // same occupancy table as the With/Global bodies: whatever enters while
 // something else is inside is reported.
@@ -35,6 +36,7 @@ import (
 	"bufio"
 	"bytes"
 	"context"
+	"encoding/json"
 	"fmt"
 	"os"
 	"os/exec"
@@ -54,13 +56,12 @@ import (
 
 	"github.com/sourcegraph/zoekt"
 	indexserverv1 "github.com/sourcegraph/zoekt/cmd/zoekt-sourcegraph-indexserver/grpc/protos/zoekt/indexserver/v1"
-	"github.com/sourcegraph/zoekt/index"
 	"github.com/sourcegraph/zoekt/internal/tenant"
 	"github.com/sourcegraph/zoekt/internal/verifkit/kit"
 )
 
 // c31SitePct: share of the cases that run the Server's call sites.
-const c31SitePct = 8
+const c31SitePct = 5
 
 func c31SitePctEff() int {
 	if v, err := strconv.Atoi(os.Getenv("VERIF_C31_SITEPCT")); err == nil {
@@ -161,50 +162,54 @@ func genC31Site(g kit.G) c31Case {
 
 // ---- process-wide fixtures ---------------------------------------------------
 
-// c31Stub stands in for zoekt-merge-index. POSIX sh; external commands: mkfifo, rm.
+// c31Stub stands in for zoekt-merge-index. POSIX sh, no external commands (a
+// process start is the expensive part of a site case). It claims one of
+// c31Slots reply FIFOs (exclusive create of claim.<slot>), announces
+// "S <slot> <args>", waits for "ok <output>" / "fail", announces "F <slot>" and
+// waits for the acknowledgement. The work of the real command on the index
+// directory is done by the harness on the command's behalf while it is being
+// let go (see releaseInvLocked), i.e. between S and F.
 const c31Stub = `#!/bin/sh
 ctl="$VERIF_C31_CTL"
 [ -n "$ctl" ] || exit 97
-f="$ctl/go.$$"
-mkfifo "$f" || exit 98
-echo "S $$ $*" > "$ctl/ev"
-read verdict < "$f"
-rc=0
+i=0
+until (set -C; : > "$ctl/claim.$i") 2>/dev/null; do
+  i=$((i+1))
+  [ $i -lt ` + "16" + ` ] || exit 98
+done
+echo "S $i $*" > "$ctl/ev"
+read verdict out < "$ctl/go.$i"
+rc=1
 if [ "$verdict" = ok ]; then
-  case "$1" in
-  merge)
-    shift
-    out="${1%/*}/compound-c31stub$$_v17.00000.zoekt"
-    rm -f "$@"
-    : > "$out"
-    printf %s "$out"
-    ;;
-  explode)
-    rm -f "$2" "$2.meta"
-    ;;
-  esac
-else
-  rc=1
+  rc=0
+  printf %s "$out"
 fi
-echo "F $$" > "$ctl/ev"
-read ack < "$f"
+echo "F $i" > "$ctl/ev"
+read ack < "$ctl/go.$i"
 exit $rc
 `
+
+const c31Slots = 16
 
 type c31File struct {
 	name string
 	data []byte
+	meta []byte // content of the .meta sidecar (overrides the repository metadata), if any
 }
 
+// c31Fixtures: shard files are taken from /repo/testdata/shards (building
+// shards is far too slow under the race detector); what the Server's call
+// sites look at - repository name, id, tenant, tombstones, commit date, one
+// repository or several - is put into the .meta sidecar, which zoekt reads in
+// place of the metadata section (that is how tombstones are stored).
 type c31Fixtures struct {
 	err       error
 	root      string
 	ctl       string
-	simple    []c31File
-	fresh     []c31File
-	compound  []c31File
-	members   [][]uint32 // repository ids inside compound[i]
+	v16       [][]byte // simple shards, index format 16 (.meta holds one repository)
+	v17       []byte   // index format 17 (.meta holds a list of repositories)
 	maxSimple int64
+	reply     []*os.File
 }
 
 var (
@@ -216,46 +221,37 @@ var (
 	c31SiteCur *c31Harness
 )
 
-func c31BuildShard(dir string, repo zoekt.Repository) (string, error) {
-	opts := index.Options{IndexDir: dir, RepositoryDescription: repo}
-	opts.SetDefaults()
-	b, err := index.NewBuilder(opts)
-	if err != nil {
-		return "", err
+var c31Old = time.Date(2001, 2, 3, 4, 5, 6, 0, time.UTC)
+
+// simple is pool shard i (0-5) or, from 6, a shard with a commit in the future.
+func (fx *c31Fixtures) simple(i int) c31File {
+	name := string(rune('a' + i))
+	repo := zoekt.Repository{ID: uint32(i + 1), Name: name, TenantID: 1 + i%2, LatestCommitDate: c31Old}
+	if i >= 6 {
+		repo.LatestCommitDate = time.Date(2200, 1, 1, 0, 0, 0, 0, time.UTC)
 	}
-	if err := b.AddFile("F", []byte(strings.Repeat(repo.Name+" abc ", 40))); err != nil {
-		return "", err
-	}
-	if err := b.Finish(); err != nil {
-		return "", err
-	}
-	fns := opts.FindAllShards()
-	if len(fns) != 1 {
-		return "", fmt.Errorf("expected one shard for %s, got %v", repo.Name, fns)
-	}
-	return fns[0], nil
+	meta, _ := json.Marshal(&repo)
+	return c31File{name: name + "_v16.00000.zoekt", data: fx.v16[i%len(fx.v16)], meta: meta}
 }
 
-func c31MergeShards(dir string, fns []string) (string, error) {
-	var files []index.IndexFile
-	for _, fn := range fns {
-		f, err := os.Open(fn)
-		if err != nil {
-			return "", err
+// compound is a shard holding two repositories: which 0: tenants 1 and 2, which 1: tenant 2 twice.
+func (fx *c31Fixtures) compound(which int, tomb []int) c31File {
+	var repos []*zoekt.Repository
+	for m := 0; m < 2; m++ {
+		id := uint32(11 + 2*which + m)
+		r := &zoekt.Repository{ID: id, Name: fmt.Sprintf("m%d", id), TenantID: 2, LatestCommitDate: c31Old}
+		if which == 0 && m == 0 {
+			r.TenantID = 1
 		}
-		defer f.Close()
-		inf, err := index.NewIndexFile(f)
-		if err != nil {
-			return "", err
+		for _, t := range tomb {
+			if t == m {
+				r.Tombstone = true
+			}
 		}
-		defer inf.Close()
-		files = append(files, inf)
+		repos = append(repos, r)
 	}
-	tmp, dst, err := index.Merge(dir, files...)
-	if err != nil {
-		return "", err
-	}
-	return dst, os.Rename(tmp, dst)
+	meta, _ := json.Marshal(repos)
+	return c31File{name: fmt.Sprintf("compound-c31real%d_v17.00000.zoekt", which), data: fx.v17, meta: meta}
 }
 
 func c31Fixtures1() *c31Fixtures {
@@ -268,74 +264,31 @@ func c31Fixtures1() *c31Fixtures {
 				return
 			}
 		}
+		repo := os.Getenv("VERIF_REPO")
+		if repo == "" {
+			repo = "/repo"
+		}
+		for _, n := range []string{"repo_v16.00000.zoekt", "repo2_v16.00000.zoekt", "ctagsrepo_v16.00000.zoekt"} {
+			b, err := os.ReadFile(filepath.Join(repo, "testdata", "shards", n))
+			if err != nil {
+				fail(err)
+				return
+			}
+			fx.v16 = append(fx.v16, b)
+			fx.maxSimple = max(fx.maxSimple, int64(len(b)))
+		}
+		b, err := os.ReadFile(filepath.Join(repo, "testdata", "shards", "repo17_v17.00000.zoekt"))
+		if err != nil {
+			fail(err)
+			return
+		}
+		fx.v17 = b
 		root, err := os.MkdirTemp("", "c31site")
 		if err != nil {
 			fail(err)
 			return
 		}
 		fx.root = root
-		read := func(fn string) (c31File, error) {
-			b, err := os.ReadFile(fn)
-			return c31File{name: filepath.Base(fn), data: b}, err
-		}
-		build := filepath.Join(root, "build")
-		old := time.Date(2001, 2, 3, 4, 5, 6, 0, time.UTC)
-		for i, name := range []string{"a", "b", "c", "d", "e", "f"} {
-			fn, err := c31BuildShard(build, zoekt.Repository{ID: uint32(i + 1), Name: name, TenantID: 1 + i%2, LatestCommitDate: old})
-			if err != nil {
-				fail(err)
-				return
-			}
-			f, err := read(fn)
-			if err != nil {
-				fail(err)
-				return
-			}
-			fx.simple = append(fx.simple, f)
-			if int64(len(f.data)) > fx.maxSimple {
-				fx.maxSimple = int64(len(f.data))
-			}
-		}
-		for i, name := range []string{"g", "h"} {
-			fn, err := c31BuildShard(build, zoekt.Repository{ID: uint32(i + 7), Name: name, TenantID: 1 + i%2, LatestCommitDate: time.Date(2200, 1, 1, 0, 0, 0, 0, time.UTC)})
-			if err != nil {
-				fail(err)
-				return
-			}
-			f, err := read(fn)
-			if err != nil {
-				fail(err)
-				return
-			}
-			fx.fresh = append(fx.fresh, f)
-		}
-		for ci, tenants := range [][]int{{1, 2}, {2, 2}} {
-			var fns []string
-			var ids []uint32
-			cdir := filepath.Join(root, fmt.Sprintf("cbuild%d", ci))
-			for m, tn := range tenants {
-				id := uint32(11 + 2*ci + m)
-				fn, err := c31BuildShard(cdir, zoekt.Repository{ID: id, Name: fmt.Sprintf("m%d", id), TenantID: tn, LatestCommitDate: old})
-				if err != nil {
-					fail(err)
-					return
-				}
-				fns = append(fns, fn)
-				ids = append(ids, id)
-			}
-			dst, err := c31MergeShards(cdir, fns)
-			if err != nil {
-				fail(err)
-				return
-			}
-			f, err := read(dst)
-			if err != nil {
-				fail(err)
-				return
-			}
-			fx.compound = append(fx.compound, f)
-			fx.members = append(fx.members, ids)
-		}
 
 		// the stand-in, first in PATH; its control directory
 		bin := filepath.Join(root, "bin")
@@ -359,13 +312,28 @@ func c31Fixtures1() *c31Fixtures {
 			fail(err)
 			return
 		}
+		// reply FIFOs, held open for reading and writing so that neither side
+		// ever blocks in open
+		for i := 0; i < c31Slots; i++ {
+			p := filepath.Join(fx.ctl, fmt.Sprintf("go.%d", i))
+			if err := syscall.Mkfifo(p, 0o600); err != nil {
+				fail(err)
+				return
+			}
+			f, err := os.OpenFile(p, os.O_RDWR, 0)
+			if err != nil {
+				fail(err)
+				return
+			}
+			fx.reply = append(fx.reply, f)
+		}
 		os.Setenv("VERIF_C31_CTL", fx.ctl)
 		os.Setenv("PATH", bin+string(os.PathListSeparator)+os.Getenv("PATH"))
 		if p, err := exec.LookPath("zoekt-merge-index"); err != nil || filepath.Dir(p) != bin {
 			fail(fmt.Errorf("stand-in not first in PATH: %q %v", p, err))
 			return
 		}
-		go c31EventLoop(ev, fx.ctl)
+		go c31EventLoop(ev, fx)
 		if c31T != nil {
 			c31T.Cleanup(func() { os.RemoveAll(root) })
 		}
@@ -374,7 +342,7 @@ func c31Fixtures1() *c31Fixtures {
 }
 
 // c31EventLoop reads the stand-ins' announcements for the whole process.
-func c31EventLoop(ev *os.File, ctl string) {
+func c31EventLoop(ev *os.File, fx *c31Fixtures) {
 	sc := bufio.NewScanner(ev)
 	sc.Buffer(make([]byte, 1<<16), 1<<20)
 	for sc.Scan() {
@@ -382,29 +350,26 @@ func c31EventLoop(ev *os.File, ctl string) {
 		if len(f) < 2 {
 			continue
 		}
-		pid, err := strconv.Atoi(f[1])
-		if err != nil {
+		slot, err := strconv.Atoi(f[1])
+		if err != nil || slot < 0 || slot >= len(fx.reply) {
 			continue
 		}
-		fifo := filepath.Join(ctl, "go."+f[1])
+		reply := fx.reply[slot]
 		c31SiteMu.Lock()
 		h := c31SiteCur
 		c31SiteMu.Unlock()
 		switch f[0] {
 		case "S":
-			reply, err := os.OpenFile(fifo, os.O_RDWR, 0)
-			if err != nil {
-				continue
-			}
-			if h == nil || !h.onCmdStart(pid, f[2:], reply) {
+			if h == nil {
 				// nobody's command (a case that was given up): let it fail and go
 				reply.WriteString("fail\nack\n")
-				reply.Close()
+				continue
 			}
+			h.onCmdStart(slot, f[2:], reply)
 		case "F":
-			os.Remove(fifo)
+			os.Remove(filepath.Join(fx.ctl, "claim."+f[1]))
 			if h != nil {
-				h.onCmdFinish(pid)
+				h.onCmdFinish(slot)
 			}
 		}
 	}
@@ -414,7 +379,7 @@ func c31EventLoop(ev *os.File, ctl string) {
 
 // c31Inv is one run of the zoekt-merge-index stand-in.
 type c31Inv struct {
-	pid      int
+	slot     int
 	seq      int
 	args     []string
 	reply    *os.File
@@ -451,7 +416,12 @@ type c31Site struct {
 }
 
 func c31OpenSite(h *c31Harness, c c31Case) (*c31Site, error) {
+	t0 := time.Now()
 	fx := c31Fixtures1()
+	if os.Getenv("VERIF_C31_DEBUG") == "time" {
+		fmt.Fprintf(os.Stderr, "C31DBG fixtures %v\n", time.Since(t0))
+		defer func() { fmt.Fprintf(os.Stderr, "C31DBG open %v\n", time.Since(t0)) }()
+	}
 	if fx.err != nil {
 		return nil, fx.err
 	}
@@ -463,36 +433,32 @@ func c31OpenSite(h *c31Harness, c c31Case) (*c31Site, error) {
 	if err != nil {
 		return nil, err
 	}
-	put := func(f c31File) string {
+	put := func(f c31File) {
 		p := filepath.Join(dir, f.name)
 		if err := os.WriteFile(p, f.data, 0o600); err != nil {
 			panic(err)
 		}
-		return p
-	}
-	for _, i := range l.Simple {
-		if i >= 0 && i < len(fx.simple) {
-			put(fx.simple[i])
+		if f.meta != nil {
+			if err := os.WriteFile(p+".meta", f.meta, 0o600); err != nil {
+				panic(err)
+			}
 		}
 	}
-	for i := 0; i < l.Fresh && i < len(fx.fresh); i++ {
-		put(fx.fresh[i])
+	for _, i := range l.Simple {
+		if i >= 0 && i < 6 {
+			put(fx.simple(i))
+		}
+	}
+	for i := 0; i < l.Fresh && i < 2; i++ {
+		put(fx.simple(6 + i))
 	}
 	seen := map[int]bool{}
 	for _, cp := range l.Compound {
-		if cp.Which < 0 || cp.Which >= len(fx.compound) || seen[cp.Which] {
+		if cp.Which < 0 || cp.Which > 1 || seen[cp.Which] {
 			continue
 		}
 		seen[cp.Which] = true
-		p := put(fx.compound[cp.Which])
-		for _, m := range cp.Tomb {
-			if m >= 0 && m < len(fx.members[cp.Which]) {
-				if err := index.SetTombstone(p, fx.members[cp.Which][m]); err != nil {
-					os.RemoveAll(dir)
-					return nil, err
-				}
-			}
-		}
+		put(fx.compound(cp.Which, cp.Tomb))
 	}
 	for i := 0; i < l.Dummy; i++ {
 		pre := "z"
@@ -526,6 +492,7 @@ func c31OpenSite(h *c31Harness, c c31Case) (*c31Site, error) {
 	h.site = st
 	h.m = &srv.muIndexDir
 	h.inCmd = map[int]*c31Inv{}
+	h.wake = make(chan struct{}, 1)
 	h.cmdKinds = map[string]bool{}
 	c31SiteMu.Lock()
 	c31SiteCur = h
@@ -556,10 +523,10 @@ func (st *c31Site) call(op c31Op) {
 
 // onCmdStart: a stand-in announced itself. It is a critical section of a
 // global operation from now until onCmdFinish.
-func (h *c31Harness) onCmdStart(pid int, args []string, reply *os.File) bool {
+func (h *c31Harness) onCmdStart(slot int, args []string, reply *os.File) {
 	h.mu.Lock()
 	defer h.mu.Unlock()
-	inv := &c31Inv{pid: pid, seq: h.invSeq, args: args, reply: reply}
+	inv := &c31Inv{slot: slot, seq: h.invSeq, args: args, reply: reply}
 	if fl := h.site.c.Fail; len(fl) > 0 {
 		inv.fail = fl[inv.seq%len(fl)]
 	}
@@ -570,36 +537,49 @@ func (h *c31Harness) onCmdStart(pid int, args []string, reply *os.File) bool {
 	for _, o := range h.inCmd {
 		h.fail("global-not-exclusive", "a global operation's command started on the index directory (%s) while another one was running (%s)", inv.describe(), o.describe())
 	}
-	h.inCmd[pid] = inv
+	h.inCmd[slot] = inv
 	h.cmdKinds[inv.kind()] = true
+	defer h.poke()
 	if h.draining {
 		inv.fail = true
 		h.releaseInvLocked(inv)
 	}
-	return true
 }
 
-func (h *c31Harness) onCmdFinish(pid int) {
+func (h *c31Harness) onCmdFinish(slot int) {
 	h.mu.Lock()
-	inv := h.inCmd[pid]
-	delete(h.inCmd, pid)
+	inv := h.inCmd[slot]
+	delete(h.inCmd, slot)
 	h.mu.Unlock()
 	if inv != nil {
 		inv.reply.WriteString("ack\n")
-		inv.reply.Close()
 	}
+	h.poke()
 }
 
+// releaseInvLocked lets a held command go on. Unless it is to fail, the
+// harness first does to the index directory what the real command does: merge
+// deletes its input shards and leaves a compound shard (an empty file here)
+// whose name it prints; explode deletes the compound shard.
 func (h *c31Harness) releaseInvLocked(inv *c31Inv) {
 	if inv.released {
 		return
 	}
 	inv.released = true
-	if inv.fail {
+	if inv.fail || len(inv.args) < 2 {
 		inv.reply.WriteString("fail\n")
-	} else {
-		inv.reply.WriteString("ok\n")
+		return
 	}
+	out := "-"
+	for _, p := range inv.args[1:] {
+		os.Remove(p)
+		os.Remove(p + ".meta")
+	}
+	if inv.args[0] == "merge" {
+		out = filepath.Join(filepath.Dir(inv.args[1]), fmt.Sprintf("compound-c31stub%d_v17.00000.zoekt", inv.seq))
+		os.WriteFile(out, nil, 0o600)
+	}
+	inv.reply.WriteString("ok " + out + "\n")
 }
 
 func (h *c31Harness) releaseInv(inv *c31Inv) {
@@ -643,7 +623,10 @@ type c31GState struct {
 // sync.(*RWMutex).Lock/RLock is indexMutex.Global/With.
 var c31InIndexMutex = regexp.MustCompile(`sync\.\(\*RWMutex\)\.R?Lock\([^\n]*\n[^\n]*\n[^\n]*\(\*indexMutex\)\.(Global|With)\(`)
 
+var c31Dumps int
+
 func c31DumpSite() map[int64]c31GState {
+	c31Dumps++
 	buf := make([]byte, 1<<17)
 	for {
 		n := runtime.Stack(buf, true)
@@ -677,6 +660,14 @@ func c31DumpSite() map[int64]c31GState {
 // stand-in that the harness holds.
 func (h *c31Harness) quiesceSite() (running []c31Rel, parked []*c31Worker, err error) {
 	deadline := time.Now().Add(30 * time.Second)
+	pause := 100 * time.Microsecond
+	if os.Getenv("VERIF_C31_DEBUG") == "time" {
+		t0 := time.Now()
+		dumps0 := c31Dumps
+		defer func() {
+			fmt.Fprintf(os.Stderr, "C31DBG quiesce %v dumps=%d running=%d parked=%d\n", time.Since(t0), c31Dumps-dumps0, len(running), len(parked))
+		}()
+	}
 	for spin := 0; ; spin++ {
 		running, parked = running[:0], parked[:0]
 		var undecided []*c31Worker
@@ -744,10 +735,30 @@ func (h *c31Harness) quiesceSite() (running []c31Rel, parked []*c31Worker, err e
 		if time.Now().After(deadline) {
 			return nil, nil, kit.Fail("no-quiescence", "site: operations neither finish, enter a critical section, wait for a held command nor park in the mutex within 30s")
 		}
-		if spin < 20 {
+		// Wait for something to happen (a command announcing itself, a body
+		// being entered, an operation returning) rather than polling: every
+		// look at a transient state costs a stop-the-world dump, which also
+		// holds up the very process start it is waiting for.
+		if spin < 5 {
 			runtime.Gosched()
-		} else {
-			time.Sleep(100 * time.Microsecond)
+			continue
+		}
+		tm := time.NewTimer(pause)
+		select {
+		case <-h.wake:
+		case <-tm.C:
+			pause = min(2*pause, 8*time.Millisecond)
+		}
+		tm.Stop()
+	}
+}
+
+// poke wakes quiesceSite (site mode only; no-op otherwise).
+func (h *c31Harness) poke() {
+	if h.wake != nil {
+		select {
+		case h.wake <- struct{}{}:
+		default:
 		}
 	}
 }
